@@ -149,6 +149,11 @@ class UnionNode(XmlNode):
             self.level -= 1
             return False
 
+        if self.var.nillable and len(self.events) == 1 and ParserUtils.xsi_nil(self.attrs):
+            # A nil element without content is no value of any of the candidates
+            objects.append((self.var.qname, None))
+            return True
+
         self.events.insert(0, ("start", qname, copy.deepcopy(self.attrs), self.ns_map))
 
         obj = None
